@@ -10,10 +10,11 @@ roundtrip_plain roundtrip_content roundtrip_partial roundtrip_statement_false fl
 fromC_rt flat_rt itag_rt atag_rt untagged_rt hasT_ok
 option_in_option_counterexample char_behind_content_counterexample unit_behind_content_counterexample content_roundtrip_examples
 unknown_struct_fields_ignored indefinite_seq_accepted indefinite_map_accepted indefinite_struct_accepted
-de_any_consumes_one_item de_any_on_ser""".split()]
+de_any_consumes_one_item de_any_on_ser roundtrip_skipped_fields""".split()]
 PACKAGES = ["hserde"]
 RULE = ("rt <type> <value>: ~100 serde types (std + derived: every Serializer/Deserializer method, externally / internally / adjacently tagged, "
-        "untagged, flatten, bytes newtype, unknown-length seq/map) x type-directed values (integers dense at width edges 2^k±3, containers of "
+        "untagged, flatten, bytes newtype, unknown-length seq/map, fields skipped at run time by skip_serializing_if in structs and struct variants, "
+        "alone and inside Vec / tuple / struct) x type-directed values (integers dense at width edges 2^k±3, containers of "
         "0,1,2,3,23,24,25,255,256 elements, NaNs, char boundaries).  The orchestrator re-encodes the value with its own encoder of the *documented* "
         "representation and checks: bytes equal, one well-formed item (own RFC 8949 parser), de(ser v) == v, consumed == len.  "
         "de <type> <hex>: the same values re-framed by the orchestrator (wider heads, definite<->indefinite seq/map/struct maps, unknown extra "
